@@ -70,6 +70,8 @@ PHYS_QUICK = [
     ('phys_chp_ramp_running_cf', dict(T=3, heat=True, fuel=True, mr=0, md=2, tar=1, tao=0, ramp=True, last='sym', cf='step')),
     ('phys_chp_cold', dict(T=2, heat=True, fuel=True, mr=2, md=0, tar=0, tao=2, ramp=False)),
     ('phys_plant_profiles', dict(T=4, heat=False, fuel=False, mr=0, md=0, tar=0, tao=1, ramp=True, sr=([1, 2], [1.5, 2.5]), sdr=([1], [2]))),
+    ('phys_plant_quarter_hour_running', dict(T=3, heat=False, fuel=True, mr=0, md=0, tar=1, tao=0, ramp=True, last='sym', freq='15min')),
+    ('phys_plant_profiles_mincap_series', dict(T=4, heat=False, fuel=False, mr=0, md=0, tar=0, tao=1, ramp=False, sr=([1, 2], [1.5, 2.5]), mincap_ts=True)),
 ]
 PHYS_THOROUGH = PHYS_QUICK + [
     ('phys_plant_ramp_T4', dict(T=4, heat=False, fuel=True, mr=2, md=2, tar=0, tao=1, ramp=True)),
@@ -84,9 +86,9 @@ PHYS_THOROUGH = PHYS_QUICK + [
 
 # ------------------------------------------------------------------------------------------------ helpers
 def build_plant(D, T, heat, fuel, mr, md, tar, tao, ramp=False, last=None, cf=None, sr=None, sdr=None, start_costs=True,
-                min_zero=False, portfolio=False):
+                min_zero=False, portfolio=False, freq='h', mincap_ts=False):
     eao = lift.import_eao()
-    tg = shapes.grid(T)
+    tg = shapes.grid(T, freq)
     names = ['P'] + (['H'] if heat else []) + (['G'] if fuel else [])
     nds = shapes.nodes(*names)
     kw = {}
@@ -96,10 +98,20 @@ def build_plant(D, T, heat, fuel, mr, md, tar, tao, ramp=False, last=None, cf=No
         kw['cf_sym'] = {'start': [tg.timepoints[t] for t in range(T)], 'end': [shapes.tstep(tg, t + 1) for t in range(T)], 'values': vals}
     pl = shapes.mk_plant(D, 'pl', nds, T, fuel=fuel, heat=heat, mr=mr, md=md, tar=tar, tao=tao, ramp=ramp, start_costs=start_costs,
                          last_dispatch=last, start_ramp=sr, shutdown_ramp=sdr, min_cap_zero=min_zero, tg=tg, **kw)
+    mincaps = None
+    if mincap_ts:
+        # time-dependent minimum capacity (a column of the price data), above the profile bounds and below max_cap
+        mincaps = D.arr('mincap', T, lo_strict=0)
+        pl.min_cap = 'mincap'
+        if D.symbolic:
+            for v in mincaps:
+                D.assume(v <= pl.max_cap)
     for prof in (sr, sdr):
         if prof is not None and D.symbolic:
             D.assume(pl.max_cap >= max(prof[1]))      # profile bounds lie within the capacity range (documented meaning of a ramp profile)
     prices = {'p': D.arr('p', T)}
+    if mincaps is not None:
+        prices['mincap'] = mincaps
     return pl, tg, prices, nds
 
 
@@ -229,12 +241,12 @@ def run_pattern(rec, seed, T, mr, md, tar, tao, heat, start_costs):
 
 
 def run_physics(rec, seed, T, heat, fuel, mr, md, tar, tao, ramp, last=None, cf=None, sr=None, sdr=None, start_costs=True,
-                min_zero=False, level='A'):
+                min_zero=False, level='A', freq='h', mincap_ts=False):
     eao = lift.import_eao()
 
     def build(D):
         pl, tg, prices, nds = build_plant(D, T, heat, fuel, mr, md, tar, tao, ramp=ramp, last=last, cf=cf, sr=sr, sdr=sdr,
-                                          start_costs=start_costs, min_zero=min_zero)
+                                          start_costs=start_costs, min_zero=min_zero, freq=freq, mincap_ts=mincap_ts)
         assets = [pl, shapes.mk_market(D, 'mP', nds[0], T, 'p')]
         k = 1
         if heat:
@@ -245,7 +257,7 @@ def run_physics(rec, seed, T, heat, fuel, mr, md, tar, tao, ramp, last=None, cf=
         op = pf.setup_optim_problem(prices, tg)
         x = common.sym_x(len(op.c))
         out = eao.io.extract_output(pf, op, eao.optimization.Results(value=Sym.var('value'), x=x, duals=None))
-        return pl, tg, pf, op, x, out
+        return pl, tg, pf, op, x, out, prices
     res = lift.explore_build(build, level=level)
     rec.paths = len(res)
     validated = False
@@ -257,7 +269,7 @@ def run_physics(rec, seed, T, heat, fuel, mr, md, tar, tao, ramp, last=None, cf=
                 continue
             common.crash_candidate(rec, P + '/crash', path, D, info=dict(kind='physics'))
             continue
-        pl, tg, pf, op, x, out = path.result
+        pl, tg, pf, op, x, out, prices = path.result
         lp = lpsem.LP(op)
         xs = [zl(v) for v in x]
         assume = list(D.pre) + path.pc + lp.feas(xs)
@@ -288,7 +300,8 @@ def run_physics(rec, seed, T, heat, fuel, mr, md, tar, tao, ramp, last=None, cf=
         start = [xs[ix[('bool_start', None)][t]] for t in range(T)] if has_start else None
         has_sd = ('bool_shutdown', None) in ix
         shut = [xs[ix[('bool_shutdown', None)][t]] for t in range(T)] if has_sd else None
-        mn = zl(pl.min_cap); mx = zl(pl.max_cap)
+        mn_t = [zl(v) for v in prices['mincap']] if mincap_ts else [zl(pl.min_cap)] * T
+        mx = zl(pl.max_cap)
         k_sr = len(sr[0]) if sr else 0
         k_sd = len(sdr[0]) if sdr else 0
         info0 = dict(kind='physics', T=T, heat=heat, fuel=fuel)
@@ -310,10 +323,10 @@ def run_physics(rec, seed, T, heat, fuel, mr, md, tar, tao, ramp, last=None, cf=
             if has_on:
                 rec.prove(P + '/off_zero/%d' % t, assume, z3.Implies(on[t] == 0, virt[t] == 0), form='Q1', info=dict(info0, ob='off_zero', t=t))
                 normal = z3.And(on[t] == 1, z3.Not(in_profile(t)))
-                rec.prove(P + '/on_range/%d' % t, assume, z3.Implies(normal, z3.And(virt[t] >= mn * dtv[t], virt[t] <= mx * dtv[t])),
+                rec.prove(P + '/on_range/%d' % t, assume, z3.Implies(normal, z3.And(virt[t] >= mn_t[t] * dtv[t], virt[t] <= mx * dtv[t])),
                           form='Q1', info=dict(info0, ob='on_range', t=t))
             else:
-                rec.prove(P + '/range/%d' % t, assume, z3.And(virt[t] >= mn * dtv[t], virt[t] <= mx * dtv[t]), form='Q1',
+                rec.prove(P + '/range/%d' % t, assume, z3.And(virt[t] >= mn_t[t] * dtv[t], virt[t] <= mx * dtv[t]), form='Q1',
                           info=dict(info0, ob='on_range', t=t))
             # profile bounds
             for j in range(k_sr):
@@ -419,7 +432,7 @@ def observe(case, kwargs, env, rq):
     T, heat, fuel = kw['T'], kw['heat'], kw['fuel']
     pl, tg, prices, nds = build_plant(D, T, heat, fuel, kw['mr'], kw['md'], kw['tar'], kw['tao'], ramp=kw.get('ramp'), last=kw.get('last'),
                                       cf=kw.get('cf'), sr=kw.get('sr'), sdr=kw.get('sdr'), start_costs=kw.get('start_costs', True),
-                                      min_zero=kw.get('min_zero', False))
+                                      min_zero=kw.get('min_zero', False), freq=kw.get('freq', 'h'), mincap_ts=kw.get('mincap_ts', False))
     kw.pop('level', None)
     assets = [pl, shapes.mk_market(D, 'mP', nds[0], T, 'p')]
     k = 1
@@ -434,7 +447,7 @@ def observe(case, kwargs, env, rq):
     o = dict(problem=obs.problem_obs(op), output=obs.output_obs(out))
     if rq.get('kind') == 'replay':
         cfp = pl.conversion_factor_power_heat if heat else 0.0
-        o['par'] = dict(min=float(pl.min_cap), max=float(pl.max_cap), ramp=(float(pl.ramp) if pl.ramp is not None else None),
+        o['par'] = dict(min=([float(v) for v in prices['mincap']] if kw.get('mincap_ts') else [float(pl.min_cap)] * T), max=float(pl.max_cap), ramp=(float(pl.ramp) if pl.ramp is not None else None),
                         last=float(pl.last_dispatch), cf=([float(v) for v in cfp['values']] if isinstance(cfp, dict) else [float(cfp)] * T),
                         share=float(pl.max_share_heat) if heat else None, dt=[float(v) for v in tg.dt],
                         fe=float(pl.fuel_efficiency) if fuel else None, cio=float(pl.consumption_if_on) if fuel else None,
@@ -480,8 +493,8 @@ def judge(case, kwargs, cand, ans):
     if ob == 'off_zero':
         return (on[t] < 0.5 and abs(virt[t]) > tol), 'step %d: off but virtual output %.6g' % (t, virt[t])
     if ob == 'on_range':
-        bad = (on is None or on[t] > 0.5) and (virt[t] < par['min'] * dt[t] - tol or virt[t] > par['max'] * dt[t] + tol)
-        return bad, 'step %d: on with virtual output %.6g outside [%.6g, %.6g]' % (t, virt[t], par['min'] * dt[t], par['max'] * dt[t])
+        bad = (on is None or on[t] > 0.5) and (virt[t] < par['min'][t] * dt[t] - tol or virt[t] > par['max'] * dt[t] + tol)
+        return bad, 'step %d: on with virtual output %.6g outside [%.6g, %.6g]' % (t, virt[t], par['min'][t] * dt[t], par['max'] * dt[t])
     if ob == 'heat_share':
         return heatv[t] > par['share'] * power[t] + tol, 'step %d: heat %.6g > share*power %.6g' % (t, heatv[t], par['share'] * power[t])
     if ob == 'ramp':
